@@ -80,6 +80,9 @@ pub struct Case {
     /// 3 --backup=numbered, 4 --backup=auto, 5 --ownership
     #[serde(default)]
     pub extra: u8,
+    /// the destination argument is a symlink to the destination directory (only when that is a directory)
+    #[serde(default)]
+    pub dest_via_link: bool,
 }
 
 fn src_spec() -> BoxedStrategy<SrcSpec> {
@@ -111,8 +114,9 @@ pub fn strategy() -> BoxedStrategy<Case> {
         prop_oneof![5 => Just(GlobMode::Off), 2 => (0u8..255).prop_map(GlobMode::Patterns), 1 => Just(GlobMode::Star)],
         prop::bool::weighted(0.4),
         prop_oneof![3 => Just(0u8), 2 => 0u8..64],
+        prop::bool::weighted(0.12),
     )
-        .prop_map(|(srcs, dest, dest_spell, flags, no_target_dir, target_dir_opt, glob, nolinks, extra)| Case { srcs, dest, dest_spell, flags, no_target_dir, target_dir_opt, glob, nolinks, extra })
+        .prop_map(|(srcs, dest, dest_spell, flags, no_target_dir, target_dir_opt, glob, nolinks, extra, dest_via_link)| Case { srcs, dest, dest_spell, flags, no_target_dir, target_dir_opt, glob, nolinks, extra, dest_via_link })
         .boxed()
 }
 
@@ -341,7 +345,13 @@ pub fn build(c: &Case, root_abs: &[u8]) -> Built {
     inv.no_target_dir = no_target_dir;
     inv.target_dir_opt = target_dir_opt;
     let dest_is_dir = !matches!(dest_spec, DestSpec::Absent | DestSpec::File(_));
-    inv.dest = spell(dname, c.dest_spell, root_abs, dest_is_dir);
+    if c.dest_via_link && dest_is_dir {
+        // the mapping rule follows a symlinked destination directory
+        ents.push(Ent::link(b"dlink", b"d"));
+        inv.dest = spell(b"dlink", c.dest_spell, root_abs, true);
+    } else {
+        inv.dest = spell(dname, c.dest_spell, root_abs, dest_is_dir);
+    }
     match c.glob {
         GlobMode::Off => {
             for (i, s) in c.srcs.iter().enumerate() {
@@ -483,6 +493,9 @@ pub fn judge(c: &Case, rec: &mut Rec) -> Verdict {
     if mapped.iter().any(|m| m.top && m.kind == K::L) {
         rec.class("top-symlink-source");
     }
+    if c.dest_via_link && b.inv.dest.windows(5).any(|w| w == b"dlink") {
+        rec.class("dest-through-symlink");
+    }
     if !out.ok() {
         rec.count("exit_nonzero", 1);
         return Verdict::Pass;
@@ -548,6 +561,6 @@ impl Check for C02 {
         }
     }
     fn required_classes(&self, _tier: Tier) -> Vec<String> {
-        ["dest=absent", "dest=file", "dest=emptydir", "dest=populated", "dest=realrun", "glob,", "T,", "td,", "nsrc=3", "top-symlink-source", "spell|src=Abs", "spell|src=DotDot"].iter().map(|s| s.to_string()).collect()
+        ["dest=absent", "dest=file", "dest=emptydir", "dest=populated", "dest=realrun", "glob,", "T,", "td,", "nsrc=3", "top-symlink-source", "spell|src=Abs", "spell|src=DotDot", "dest-through-symlink"].iter().map(|s| s.to_string()).collect()
     }
 }
